@@ -597,86 +597,7 @@ func runC04(c *Ctx) {
 	}
 
 	// ---------- R2 broadcastErr ----------
-	{
-		root := bcast.Params[0]
-		// everything under the mutex
-		var rng *ssa.Range
-		var snd *ssa.Send
-		var upd *ssa.MapUpdate
-		var closeIn, errStore ssa.Instruction
-		eachInstr(bcast, func(in ssa.Instruction) {
-			switch x := in.(type) {
-			case *ssa.Range:
-				rng = x
-			case *ssa.Send:
-				snd = x
-			case *ssa.MapUpdate:
-				upd = x
-			case *ssa.Store:
-				if fa, ok := x.Addr.(*ssa.FieldAddr); ok {
-					if _, n, _, _ := fieldOf(fa); n == "err" && typeName(derefType(fa.X.Type())) == "clientConn" {
-						errStore = in
-					}
-				}
-			case *ssa.Call:
-				if builtinName(&x.Call) == "close" {
-					closeIn = in
-				}
-			}
-		})
-		for n, in := range map[string]ssa.Instruction{"range": rng, "send": snd, "replace": upd, "close": closeIn, "store err": errStore} {
-			if in == nil || (n == "range" && rng == nil) {
-				c.bad("R2", "broadcastErr "+n, p.Pos(bcast.Pos()), "broadcastErr lacks its "+n+" step")
-				continue
-			}
-			c.check(heldAt(in, root, "clientConn.Mutex") == "Lock", "R2", "broadcastErr "+n+" under mutex", pos(in), "under the table mutex", "broadcastErr's "+n+" step runs outside the table mutex: a concurrent putChannel can register after the sweep and wait forever")
-		}
-		if rng != nil && snd != nil && upd != nil {
-			// range over inflight; send to the ranged channel an error result; replace under the ranged key
-			overTable := false
-			for _, l := range leavesOf(rng.X) {
-				if l.Kind == leafFieldLoad && l.Field == "inflight" {
-					overTable = true
-				}
-			}
-			c.check(overTable, "R2", "broadcastErr sweeps the in-flight table", pos(rng), "ranges over inflight", "broadcastErr does not range over the in-flight table")
-			errRes := resultHasOnlyErr(snd.X)
-			c.check(errRes, "R2", "broadcastErr sends an error result", pos(snd), "every waiter gets a result with err set", "the broadcast result carries no error")
-			c.check(snd.Block() == upd.Block() && inLoop(snd), "R2", "broadcastErr replaces each notified entry", pos(upd), "entry replaced right after notification (exactly-once)", "a notified entry is not replaced: a later send error would be delivered to the same caller again and block")
-			if mc, ok := upd.Value.(*ssa.MakeChan); ok {
-				k, okc := constInt(mc.Size)
-				c.check(okc && k >= 1, "R2", "replacement channel buffered", pos(upd), "capacity >= 1", "the replacement channel is unbuffered: dispatchRequest's error delivery blocks forever")
-			} else {
-				c.bad("R2", "replacement channel", pos(upd), "the entry is not replaced by a fresh channel")
-			}
-		}
-		if closeIn != nil {
-			mn, mx, n := countPaths(bcast, nil, isReturn, func(x ssa.Instruction) bool { return x == closeIn })
-			c.check(n > 0 && mn == 1 && mx == 1 && !inLoop(closeIn), "R2", "closed is closed exactly once per broadcast", pos(closeIn), "close(c.closed) on every path, once", "close(c.closed) is skipped on some path or repeated")
-			isClosedChan := false
-			for _, l := range leavesOf(callOf(closeIn).Args[0]) {
-				if l.Kind == leafFieldLoad && l.Field == "closed" {
-					isClosedChan = true
-				}
-			}
-			c.check(isClosedChan, "R2", "broadcastErr closes c.closed", pos(closeIn), "the latch is c.closed", "broadcastErr closes a different channel")
-			if errStore != nil {
-				c.check(dominates(errStore, closeIn), "R2", "err stored before closed is closed", pos(errStore), "Wait() readers see the error", "c.err is stored after `closed` is closed: Wait may return a nil error")
-			}
-		}
-		// close(c.closed) has no other site
-		for _, fn := range p.LibFuncs() {
-			eachInstr(fn, func(in ssa.Instruction) {
-				if cc := callOf(in); cc != nil && builtinName(cc) == "close" {
-					for _, l := range leavesOf(cc.Args[0]) {
-						if l.Kind == leafFieldLoad && l.Field == "closed" && typeName(l.Base.Type()) == "clientConn" {
-							c.check(fn == bcast, "R2", "close(c.closed) in "+fnName(fn), pos(in), "only broadcastErr closes the latch", "`closed` is closed outside broadcastErr: double close panics")
-						}
-					}
-				}
-			})
-		}
-	}
+	checkBroadcastErr(c, "R2", bcast)
 
 	// ---------- R3 putChannel ----------
 	{
@@ -808,7 +729,7 @@ func runC04(c *Ctx) {
 				c.check(okc && k >= 1, "R5", "make(chan result) in "+fnName(fn), pos(in), "capacity >= 1", "an unbuffered result channel: broadcastErr/recv block inside the table mutex")
 			})
 		}
-		c.check(n >= 6, "R5", "result channel sites", "?", fmt.Sprintf("%d sites", n), fmt.Sprintf("only %d make(chan result) sites (6 expected)", n))
+		c.check(n >= 4, "R5", "result channel sites", "?", fmt.Sprintf("%d sites", n), fmt.Sprintf("only %d make(chan result) sites (at least 4 expected)", n))
 		// clientConn.sendPacket guards cap(ch) < 1
 		sp := p.Func("(*clientConn).sendPacket")
 		if sp == nil {
@@ -1180,4 +1101,124 @@ func enclosingDeferOnce(fn *ssa.Function, cl ssa.Instruction) bool {
 		}
 	})
 	return n == 1 && okd
+}
+
+
+// checkBroadcastErr (C04.R2, shared with C20.Z5): the sweep that fails every outstanding request when the receiver
+// gives up — on connection loss and likewise on a reply it cannot decode.
+func checkBroadcastErr(c *Ctx, rule string, bcast *ssa.Function) {
+	p := c.P
+	pos := func(in ssa.Instruction) string { return p.Pos(in.Pos()) }
+	{
+		root := bcast.Params[0]
+		// everything under the mutex
+		var rng *ssa.Range
+		var snd *ssa.Send
+		var upd *ssa.MapUpdate
+		var closeIn, errStore ssa.Instruction
+		eachInstr(bcast, func(in ssa.Instruction) {
+			switch x := in.(type) {
+			case *ssa.Range:
+				rng = x
+			case *ssa.Send:
+				snd = x
+			case *ssa.MapUpdate:
+				upd = x
+			case *ssa.Store:
+				if fa, ok := x.Addr.(*ssa.FieldAddr); ok {
+					if _, n, _, _ := fieldOf(fa); n == "err" && typeName(derefType(fa.X.Type())) == "clientConn" {
+						errStore = in
+					}
+				}
+			case *ssa.Call:
+				if builtinName(&x.Call) == "close" {
+					closeIn = in
+				}
+			}
+		})
+		// deleting the notified entry is as good as replacing it: getChannel then finds nothing to send to
+		var del ssa.Instruction
+		eachInstr(bcast, func(in ssa.Instruction) {
+			if cc := callOf(in); cc != nil && builtinName(cc) == "delete" && snd != nil && in.Block() == snd.Block() {
+				del = in
+			}
+		})
+		steps := map[string]ssa.Instruction{}
+		if upd == nil && del != nil {
+			steps["replace"] = del
+		}
+		if rng != nil {
+			steps["range"] = rng
+		}
+		if snd != nil {
+			steps["send"] = snd
+		}
+		if upd != nil {
+			steps["replace"] = upd
+		}
+		if closeIn != nil {
+			steps["close"] = closeIn
+		}
+		if errStore != nil {
+			steps["store err"] = errStore
+		}
+		for _, n := range []string{"range", "send", "replace", "close", "store err"} {
+			in := steps[n]
+			if in == nil {
+				why := "broadcastErr lacks its " + n + " step"
+				if n == "replace" {
+					why = "a notified entry stays in the in-flight table with its (now full) channel: when the write of that request fails afterwards, dispatchRequest delivers a second result to the same channel and blocks for ever"
+				}
+				c.bad(rule, "broadcastErr "+n, p.Pos(bcast.Pos()), why)
+				continue
+			}
+			c.check(heldAt(in, root, "clientConn.Mutex") == "Lock", rule, "broadcastErr "+n+" under mutex", pos(in), "under the table mutex", "broadcastErr's "+n+" step runs outside the table mutex: a concurrent putChannel can register after the sweep and wait forever")
+		}
+		if rng != nil && snd != nil && upd != nil {
+			// range over inflight; send to the ranged channel an error result; replace under the ranged key
+			overTable := false
+			for _, l := range leavesOf(rng.X) {
+				if l.Kind == leafFieldLoad && l.Field == "inflight" {
+					overTable = true
+				}
+			}
+			c.check(overTable, rule, "broadcastErr sweeps the in-flight table", pos(rng), "ranges over inflight", "broadcastErr does not range over the in-flight table")
+			errRes := resultHasOnlyErr(snd.X)
+			c.check(errRes, rule, "broadcastErr sends an error result", pos(snd), "every waiter gets a result with err set", "the broadcast result carries no error")
+			c.check(snd.Block() == upd.Block() && inLoop(snd), rule, "broadcastErr replaces each notified entry", pos(upd), "entry replaced right after notification (exactly-once)", "a notified entry is not replaced: a later send error would be delivered to the same caller again and block")
+			if mc, ok := upd.Value.(*ssa.MakeChan); ok {
+				k, okc := constInt(mc.Size)
+				c.check(okc && k >= 1, rule, "replacement channel buffered", pos(upd), "capacity >= 1", "the replacement channel is unbuffered: dispatchRequest's error delivery blocks forever")
+				c.check(mc.Block() == upd.Block() || (inLoop(mc) && dominates(mc, upd) && loopHeadOf(mc) == loopHeadOf(upd)), rule, "replacement channel fresh per entry", pos(mc), "made inside the sweep, one per entry", "all notified entries share one replacement channel of capacity 1: the second late send error blocks its sender for ever")
+			} else {
+				c.bad(rule, "replacement channel", pos(upd), "the entry is not replaced by a fresh channel")
+			}
+		}
+		if closeIn != nil {
+			mn, mx, n := countPaths(bcast, nil, isReturn, func(x ssa.Instruction) bool { return x == closeIn })
+			c.check(n > 0 && mn == 1 && mx == 1 && !inLoop(closeIn), rule, "closed is closed exactly once per broadcast", pos(closeIn), "close(c.closed) on every path, once", "close(c.closed) is skipped on some path or repeated")
+			isClosedChan := false
+			for _, l := range leavesOf(callOf(closeIn).Args[0]) {
+				if l.Kind == leafFieldLoad && l.Field == "closed" {
+					isClosedChan = true
+				}
+			}
+			c.check(isClosedChan, rule, "broadcastErr closes c.closed", pos(closeIn), "the latch is c.closed", "broadcastErr closes a different channel")
+			if errStore != nil {
+				c.check(dominates(errStore, closeIn), rule, "err stored before closed is closed", pos(errStore), "Wait() readers see the error", "c.err is stored after `closed` is closed: Wait may return a nil error")
+			}
+		}
+		// close(c.closed) has no other site
+		for _, fn := range p.LibFuncs() {
+			eachInstr(fn, func(in ssa.Instruction) {
+				if cc := callOf(in); cc != nil && builtinName(cc) == "close" {
+					for _, l := range leavesOf(cc.Args[0]) {
+						if l.Kind == leafFieldLoad && l.Field == "closed" && typeName(l.Base.Type()) == "clientConn" {
+							c.check(fn == bcast, rule, "close(c.closed) in "+fnName(fn), pos(in), "only broadcastErr closes the latch", "`closed` is closed outside broadcastErr: double close panics")
+						}
+					}
+				}
+			})
+		}
+	}
 }
